@@ -184,89 +184,7 @@ func runC12(c *Ctx) {
 	if f0 == nil {
 		return
 	}
-	f := capsFunc(c)
-	R.Rule("R-caps-table", "E8 table agreement + E3 guard facts", "each capability is listed under exactly the configuration condition the property states, on all configurations; parametrised capabilities carry the configured values; nothing else is listed", 14)
-	caps, problems := extractCaps(c, f)
-	for _, p := range problems {
-		R.Und("(*Conn).handleGreet/capability value", "-", p)
-	}
-	seen := map[string]int{}
-	var rows []string
-	baseAtoms := map[string]bool{}
-	for _, ce := range caps {
-		if strings.HasPrefix(ce.name, "Hello ") {
-			continue // greeting text line, not a capability
-		}
-		seen[ce.name]++
-		rows = append(rows, fmt.Sprintf("%s <= %v", ce.name, ce.conds))
-		want, known := refCaps[ce.name]
-		if !known {
-			R.Ob("(*Conn).handleGreet/capability "+ce.name, ce.pos, false, "capability "+ce.name+" is not in the property's list")
-			continue
-		}
-		w := append([]string{}, want...)
-		sort.Strings(w)
-		ok := strings.Join(w, " && ") == strings.Join(ce.conds, " && ")
-		R.Ob("(*Conn).handleGreet/capability "+ce.name, ce.pos, ok, fmt.Sprintf("%s is advertised when {%s}; the property requires {%s}", ce.name, strings.Join(ce.conds, " && "), strings.Join(w, " && ")))
-		if v, has := refCapValue[ce.name]; has {
-			R.Ob("(*Conn).handleGreet/value of "+ce.name, ce.pos, ce.value == v, ce.name+" is rendered from "+ce.value+", want "+v)
-		}
-		for _, a := range ce.conds {
-			b, _ := atomBase(a)
-			baseAtoms[b] = true
-		}
-		for _, a := range want {
-			b, _ := atomBase(a)
-			baseAtoms[b] = true
-		}
-	}
-	for name := range refCaps {
-		if seen[name] != 1 {
-			R.Ob("(*Conn).handleGreet/capability "+name+" listed once", c.P.Pos(f.Pos()), false, fmt.Sprintf("capability %s is appended %d times", name, seen[name]))
-		}
-	}
-	// exhaustive truth-table comparison over all assignments of the base atoms
-	var atoms []string
-	for a := range baseAtoms {
-		atoms = append(atoms, a)
-	}
-	sort.Strings(atoms)
-	nCfg, nDis := 0, 0
-	firstDis := ""
-	if len(atoms) <= 16 {
-		for m := 0; m < 1<<len(atoms); m++ {
-			asg := map[string]bool{}
-			for i, a := range atoms {
-				asg[a] = m&(1<<i) != 0
-			}
-			eval := func(conds []string) bool {
-				for _, a := range conds {
-					b, pol := atomBase(a)
-					if asg[b] != pol {
-						return false
-					}
-				}
-				return true
-			}
-			nCfg++
-			for _, ce := range caps {
-				want, known := refCaps[ce.name]
-				if !known {
-					continue
-				}
-				if eval(ce.conds) != eval(want) {
-					nDis++
-					if firstDis == "" {
-						firstDis = fmt.Sprintf("%s under %v", ce.name, asg)
-					}
-				}
-			}
-		}
-	}
-	R.Extra["capability_table"] = rows
-	R.Extra["configurations_enumerated"] = nCfg
-	R.Extra["config_atoms"] = atoms
-	R.Ob("(*Conn).handleGreet/truth table over all configurations", c.P.Pos(f.Pos()), nDis == 0 && nCfg > 0, fmt.Sprintf("%d disagreements over %d configurations, first: %s", nDis, nCfg, firstDis))
+	ruleCapsTable(c)
 
 	ruleAuthAllowedDef(c) // the table's atom authAllowed() must mean "TLS or AllowInsecureAuth"
 
@@ -546,4 +464,95 @@ func verbTag(c *Ctx) string {
 		}
 	}
 	return "strings.ToUpper(param1)"
+}
+
+// ruleCapsTable (C12, C14): the capability table of the EHLO reply against the configuration, over all configurations.
+// C14 needs it because the client sends an option only for an advertised extension and drops RRVS, DSN, SIZE and AUTH
+// parameters silently otherwise: an enabled extension that is not advertised under some configuration loses the
+// option on the way to the backend.
+func ruleCapsTable(c *Ctx) {
+	R := c.R
+	f := capsFunc(c)
+	R.Rule("R-caps-table", "E8 table agreement + E3 guard facts", "each capability is listed under exactly the configuration condition the property states, on all configurations; parametrised capabilities carry the configured values; nothing else is listed", 14)
+	caps, problems := extractCaps(c, f)
+	for _, p := range problems {
+		R.Und("(*Conn).handleGreet/capability value", "-", p)
+	}
+	seen := map[string]int{}
+	var rows []string
+	baseAtoms := map[string]bool{}
+	for _, ce := range caps {
+		if strings.HasPrefix(ce.name, "Hello ") {
+			continue // greeting text line, not a capability
+		}
+		seen[ce.name]++
+		rows = append(rows, fmt.Sprintf("%s <= %v", ce.name, ce.conds))
+		want, known := refCaps[ce.name]
+		if !known {
+			R.Ob("(*Conn).handleGreet/capability "+ce.name, ce.pos, false, "capability "+ce.name+" is not in the property's list")
+			continue
+		}
+		w := append([]string{}, want...)
+		sort.Strings(w)
+		ok := strings.Join(w, " && ") == strings.Join(ce.conds, " && ")
+		R.Ob("(*Conn).handleGreet/capability "+ce.name, ce.pos, ok, fmt.Sprintf("%s is advertised when {%s}; the property requires {%s}", ce.name, strings.Join(ce.conds, " && "), strings.Join(w, " && ")))
+		if v, has := refCapValue[ce.name]; has {
+			R.Ob("(*Conn).handleGreet/value of "+ce.name, ce.pos, ce.value == v, ce.name+" is rendered from "+ce.value+", want "+v)
+		}
+		for _, a := range ce.conds {
+			b, _ := atomBase(a)
+			baseAtoms[b] = true
+		}
+		for _, a := range want {
+			b, _ := atomBase(a)
+			baseAtoms[b] = true
+		}
+	}
+	for name := range refCaps {
+		if seen[name] != 1 {
+			R.Ob("(*Conn).handleGreet/capability "+name+" listed once", c.P.Pos(f.Pos()), false, fmt.Sprintf("capability %s is appended %d times", name, seen[name]))
+		}
+	}
+	// exhaustive truth-table comparison over all assignments of the base atoms
+	var atoms []string
+	for a := range baseAtoms {
+		atoms = append(atoms, a)
+	}
+	sort.Strings(atoms)
+	nCfg, nDis := 0, 0
+	firstDis := ""
+	if len(atoms) <= 16 {
+		for m := 0; m < 1<<len(atoms); m++ {
+			asg := map[string]bool{}
+			for i, a := range atoms {
+				asg[a] = m&(1<<i) != 0
+			}
+			eval := func(conds []string) bool {
+				for _, a := range conds {
+					b, pol := atomBase(a)
+					if asg[b] != pol {
+						return false
+					}
+				}
+				return true
+			}
+			nCfg++
+			for _, ce := range caps {
+				want, known := refCaps[ce.name]
+				if !known {
+					continue
+				}
+				if eval(ce.conds) != eval(want) {
+					nDis++
+					if firstDis == "" {
+						firstDis = fmt.Sprintf("%s under %v", ce.name, asg)
+					}
+				}
+			}
+		}
+	}
+	R.Extra["capability_table"] = rows
+	R.Extra["configurations_enumerated"] = nCfg
+	R.Extra["config_atoms"] = atoms
+	R.Ob("(*Conn).handleGreet/truth table over all configurations", c.P.Pos(f.Pos()), nDis == 0 && nCfg > 0, fmt.Sprintf("%d disagreements over %d configurations, first: %s", nDis, nCfg, firstDis))
 }
